@@ -640,6 +640,8 @@ class CallMixin:
 
     def bi_float(self, args, kw, node, st):
         v = args[0]
+        if isinstance(v, str) and v.lower() in ("nan", "inf", "-inf"):
+            return VConc(float(v))
         if is_int(v) or is_real(v):
             return to_z3(v, "real") if not is_conc(v) else Fraction(v)
         raise Unsupported("float() of this value")
